@@ -147,10 +147,11 @@ def run_check(prop, tier, seed, replay, no_build=False):
     t0 = time.time()
     os.chdir(VERIF)
     mod = harness_for(prop)
-    props_rel = getattr(mod, "PROPS_FILE", f"PyatvModel/Props/{prop}.lean")
-    props_module = props_rel[:-5].replace("/", ".")
+    props_files = list(getattr(mod, "PROPS_FILES", [f"PyatvModel/Props/{prop}.lean"]))
+    props_modules = [p[:-5].replace("/", ".") for p in props_files]
+    props_module = props_modules[0]
     driver_rel = getattr(mod, "DRIVER", f"Driver/{prop}.lean")
-    targets = getattr(mod, "LEAN_TARGETS", [props_module, f"PyatvModel.{prop}.Driver"])
+    targets = getattr(mod, "LEAN_TARGETS", props_modules + [f"PyatvModel.{prop}.Driver"])
 
     if replay:
         data = json.load(open(replay))
@@ -166,32 +167,43 @@ def run_check(prop, tier, seed, replay, no_build=False):
         return 0
 
     # 1-3: extract, build, audit (serialised across concurrent checks)
-    ns, obs = lean.obligations(props_rel)
+    per_file = []
+    for rel in props_files:
+        ns, fobs = lean.obligations(rel)
+        for o in fobs:
+            o["file"] = rel
+            o["full"] = f"{ns}.{o['name']}" if ns else o["name"]
+        per_file.append((rel, ns, fobs))
     stage = {}
+    obs_res = []
     if no_build:
-        obs_res = [dict(o, discharged=True, error=None) for o in obs]
+        for rel, ns, fobs in per_file:
+            obs_res += [dict(o, discharged=True, error=None) for o in fobs]
         audit_hits, axioms, bad_axioms = [], {}, {}
     else:
         with lean.Lock():
             stage["extract"] = lean.extract()
             b = lean.build(targets)
             stage["build"] = {"ok": b["ok"], "wall_s": b["wall_s"], "errors": b["errors"][:10]}
-            obs_res = lean.discharged(obs, props_rel, b)
+            for (rel, ns, fobs), module in zip(per_file, props_modules):
+                fb = b if (b["ok"] or len(per_file) == 1) else lean.build([module])
+                obs_res += lean.discharged(fobs, rel, fb)
             if not stage["extract"]["ok"]:
                 for o in obs_res:
                     o["discharged"] = False
                     o["error"] = "extract.py failed: " + stage["extract"]["log"][-300:]
             audit_hits = lean.audit_sources(lean.lean_sources())
-            thm_names = [f"{ns}.{o['name']}" if ns else o["name"] for o in obs_res if o["kind"] == "theorem" and o["discharged"]]
-            axioms = lean.print_axioms(props_module, thm_names) if b["ok"] else {}
+            axioms = {}
+            if b["ok"]:
+                for (rel, ns, fobs), module in zip(per_file, props_modules):
+                    axioms.update(lean.print_axioms(module, [o["full"] for o in fobs if o["kind"] == "theorem"]))
             if tier == "thorough" and b["ok"]:
-                stage["leanchecker"] = lean.leanchecker([props_module])
+                stage["leanchecker"] = lean.leanchecker(props_modules)
         bad_axioms = {n: a for n, a in axioms.items() if a is None or not set(a) <= lean.ALLOWED_AXIOMS}
         for o in obs_res:
-            full = f"{ns}.{o['name']}" if ns else o["name"]
-            if full in bad_axioms:
+            if o["full"] in bad_axioms:
                 o["discharged"] = False
-                o["error"] = f"axiom audit: {bad_axioms[full]}"
+                o["error"] = f"axiom audit: {bad_axioms[o['full']]}"
             if audit_hits:
                 o["discharged"] = False
                 o["error"] = "source audit: " + audit_hits[0]
@@ -270,7 +282,7 @@ def run_check(prop, tier, seed, replay, no_build=False):
     elif broken:
         body = {
             "seed": seed, "tier": tier,
-            "broken": [f"{props_module}.{o['name']}: {o['error']}" for o in undischarged],
+            "broken": [f"{o['full']}: {o['error']}" for o in undischarged],
             "correspondence": ctx.disagreements[:5],
             "harness_error": harness_error,
             "searched": {"evaluations": ctx.evaluations, "widened": True},
@@ -295,8 +307,8 @@ def run_check(prop, tier, seed, replay, no_build=False):
         "discharged": sum(1 for o in obs_res if o["discharged"]),
         "obligation_names": [o["name"] for o in obs_res],
         "undischarged": [{"name": o["name"], "error": o["error"]} for o in undischarged],
-        "checker_cmd": "cd lean && lake build " + " ".join(targets) + " && #print axioms on every theorem of " + props_module
-                       + (" && lake env leanchecker " + props_module if tier == "thorough" else ""),
+        "checker_cmd": "cd lean && lake build " + " ".join(targets) + " && #print axioms on every theorem of " + " ".join(props_modules)
+                       + (" && lake env leanchecker " + " ".join(props_modules) if tier == "thorough" else ""),
         "trusted_base": trusted,
         "axioms_per_theorem": thm_axioms,
         "audit_hits": audit_hits,
